@@ -18,9 +18,11 @@ TEXT = {
     "C02": ("Theorems: the offset / count bookkeeping of the sequence and container serialisers equals the specification's "
             "ser_parts for ARBITRARY element encodings (fixed parts, 4-byte offsets, variable parts in order; returned "
             "count = bytes written); leaf kinds uintN / boolean serialise to the spec bytes; spec encoding lengths lie "
-            "within the type bounds. Tree reading, packing and bit handling: correspondence (encode_bytes, "
-            "serialize(stream) bytes + count, bytes()).",
-            "Coq proof (offset bookkeeping, leaf kinds) + correspondence", "5 (C02)"),
+            "within the type bounds; C02_constructed: for every type built from uintN, boolean, Container, Union and "
+            "Vector/List of non-basic elements (any nesting) and every well-formed value, the constructed backing tree "
+            "serialises to exactly the spec bytes and count (any hash function). Packed basic sequences, bit and byte "
+            "arrays, mutated trees: correspondence (encode_bytes, serialize(stream) bytes + count, bytes()).",
+            "Coq proof (full serialize theorem for composite kinds, offset bookkeeping, leaf kinds) + correspondence", "5 (C02)"),
     "C03": ("Theorems: uintN / boolean decode(encode(v)) from a stream with an arbitrary suffix returns the constructed "
             "backing and the untouched suffix. Other kinds: correspondence (prefix / suffix around the encoding, exact "
             "scope; success, root, re-encoding, ==, bytes consumed).",
